@@ -397,6 +397,20 @@ def pan8_range_arithmetic(ctx):
     ER = [b for b in P.find('query_plan::encoding_range') if b.kind == 'fn' and '{closure' not in b.name]
     ctx.require(len(ER) == 1, 'PAN-8: query_plan::encoding_range not found')
     bodies = [ER[0]] + list(P.closures_of(ER[0]))
+    # helpers that encoding_range calls and that call it back (`product_range(lhs, rhs, qp)`) are part of
+    # the range computation, not consumers of its result
+    er_reach = set(P.reachable_bodies([ER[0]]))
+    part = set()
+    for nm in er_reach:
+        hb = P.body(nm)
+        if hb is None or hb.crate != 'locustdb' or hb.name == ER[0].name or '{closure' in nm:
+            continue
+        if hb._lines is not None and not any('encoding_range' in l for l in hb._lines):
+            continue
+        if ER[0].name in P.reachable_bodies([hb]):
+            part.add(hb.name)
+            bodies.append(hb)
+            bodies += list(P.closures_of(hb))
     raw = []
     for b in bodies:
         b.parse()
@@ -416,6 +430,8 @@ def pan8_range_arithmetic(ctx):
     n = 0
     for b in P.fn_bodies():
         if b.crate != 'locustdb' or b.name == ER[0].name or b.name.startswith(ER[0].name + '::'):
+            continue
+        if b.name in part or any(b.name.startswith(x + '::') for x in part):
             continue
         if b._lines is not None and not any('encoding_range' in l for l in b._lines):
             continue
